@@ -667,6 +667,9 @@ func genEdit(c *simrt.Choices, u *Universe, g genCfg, snapshots []*Universe) (*U
 		s := lab()
 		if s.Fail != "" {
 			s.Fail = ""
+			if s.TimeoutMS > 0 && s.DurMS > s.TimeoutMS/4 {
+				s.DurMS = s.TimeoutMS / 4 // the repaired command finishes well inside its timeout
+			}
 		} else {
 			s.Fail = "exit"
 		}
